@@ -123,8 +123,10 @@ class ListenerModel:
             if _is_ident_text(t):
                 return const(raw)
             return None
-        return Evaluator(self.repo, AGG_MOD, self.cls, rewrite=rewrite, opaque_methods=("clean_doc_lines",),
-                         list_terms=(self.entries, self.defstack, self.clsstack, self.consumed))
+        ev = Evaluator(self.repo, AGG_MOD, self.cls, rewrite=rewrite, opaque_methods=("clean_doc_lines",),
+                       list_terms=(self.entries, self.defstack, self.clsstack, self.consumed))
+        ev.fork_ifexp = True
+        return ev
 
     def rows(self, event: str, k: str) -> List[Row]:
         key = (event, k)
